@@ -127,7 +127,7 @@ class Splitter:
                 raise BlockAbortedException(
                     abort_reason=f"Unexpected block start: `{m.group(0)}`. "
                     f"Was still looking for closing bracket",
-                    end_index=m.start() - 1,
+                    end_index=m.start(),
                 )
 
     def _move_to_comma_or_closing_curly_bracket(
@@ -199,7 +199,7 @@ class Splitter:
                 raise BlockAbortedException(
                     abort_reason=f"Unexpected block start: `{next_mark.group(0)}`. "
                     f"Was still looking for field-value closing {looking_for} ",
-                    end_index=next_mark.start() - 1,
+                    end_index=next_mark.start(),
                 )
 
     def _move_to_end_of_entry(self, first_key_start: int) -> Tuple[List[Field], int, Set[str]]:
